@@ -225,6 +225,18 @@ def scenarios():
                                     "hash": hsh, "trailing": hx(trailing), "chunk": chunk})
             out.append({"fn": "hub_step", "tree": tree, "op": "delete", "path": path, "expected": e})
         out.append({"fn": "hub_step", "tree": tree, "op": "get", "path": path})
+    # a write that loses the compare-and-swap although it carries exactly the bytes the path already holds: it is still a
+    # write that did not commit, so its bytes must be kept in a conflict copy (the live file may be replaced a moment later)
+    for path, cur in (("a.txt", b"hi"), ("d/b.bin", b"\x00\x01\x02")):
+        for e in (None, "STALE"):
+            out.append({"fn": "hub_step", "tree": tree, "op": "put", "path": path, "expected": e, "content": hx(cur), "hash": "CONTENT"})
+    # long names made of multi-byte characters (a byte offset into such a name is usually NOT a character boundary): every
+    # request kind, on the accepting and on the refusing branch
+    for stem in ("\u00e9" * 60, "\u4e2d\u6587" * 35, "a" + "\u00e9" * 70, "\U0001F600" * 30):
+        for path in ("docs/" + stem, "../" + stem, "/" + stem):
+            out.append({"fn": "hub_step", "tree": tree, "op": "get", "path": path})
+            out.append({"fn": "hub_step", "tree": tree, "op": "delete", "path": path, "expected": None})
+            out.append({"fn": "hub_step", "tree": tree, "op": "put", "path": path, "expected": None, "content": hx(b"abc"), "hash": "CONTENT"})
     # names of the served directory itself: only "nothing outside the root, no panic" is judged
     for path in ("", ".", "./", ".//"):
         for e in (None, "STALE"):
